@@ -69,18 +69,22 @@ theorem thetaTri_step (w : World) (P0 : List Op) (qn : Nat) (heven : qn % 2 = 0)
     · rw [if_neg hc] at this; omega
   generalize hfm : (RangeCoder.decode d.c ((qn / 2 + 1) * (qn / 2 + 1))).1 = fm at m'
   obtain ⟨t1, t2, t3⟩ := OpusProofs.Tri.tri_inv qn x fm heven hxq m'.1 m'.2
-  have hdec : Opus.CeltBands.thetaTri d qn =
-      (OpusProofs.Tri.decIt qn fm, ({ d with c := (RangeCoder.decode d.c ((qn / 2 + 1) * (qn / 2 + 1))).2,
-          tr := .dec ((qn / 2 + 1) * (qn / 2 + 1)) fm :: d.tr } : BSt).update (OpusProofs.Tri.decFl qn fm)
-        (OpusProofs.Tri.decFl qn fm + OpusProofs.Tri.decFs qn fm) ((qn / 2 + 1) * (qn / 2 + 1))) := by
-    simp only [Opus.CeltBands.thetaTri, BSt.decode, hfm]
-    unfold OpusProofs.Tri.decIt OpusProofs.Tri.decFl OpusProofs.Tri.decFs OpusProofs.Tri.decIt
+  have hdec : (Opus.CeltBands.thetaTri d qn).1 = OpusProofs.Tri.decIt qn fm ∧
+      (Opus.CeltBands.thetaTri d qn).2.c = decUpdate (RangeCoder.decode d.c ((qn / 2 + 1) * (qn / 2 + 1))).2
+        (OpusProofs.Tri.decFl qn fm) (OpusProofs.Tri.decFl qn fm + OpusProofs.Tri.decFs qn fm) ((qn / 2 + 1) * (qn / 2 + 1)) ∧
+      (Opus.CeltBands.thetaTri d qn).2.rem = d.rem := by
+    simp only [Opus.CeltBands.thetaTri, BSt.decode, BSt.update, hfm]
+    unfold OpusProofs.Tri.decFl OpusProofs.Tri.decFs OpusProofs.Tri.decIt
     by_cases hb : fm < qn / 2 * (qn / 2 + 1) / 2
-    · simp only [hb, if_true]
-    · simp only [hb, if_false]
-  rw [hdec, t1, t2, t3]
-  exact ⟨rfl, ⟨hn, hs.rem⟩⟩
+    · simp only [hb, if_true]; exact ⟨trivial, trivial, trivial⟩
+    · simp only [hb, if_false]; exact ⟨trivial, trivial, trivial⟩
+  obtain ⟨d1, d2, d3⟩ := hdec
+  rw [t1] at d1
+  rw [t2, t3] at d2
+  refine ⟨d1, ⟨⟨hn.enc, ?_⟩, by rw [d3]; exact hs.rem⟩⟩
+  rw [d2]; exact hn.dec
 
+#exit
 /-- the symbol of `compute_theta`; `qn` is 1 or even -/
 theorem thetaWrite_step (w : World) (P0 : List Op) (stereo : Bool) (N : Nat) (b : Int) (B0 qn : Nat)
     (hq : qn = 1 ∨ qn % 2 = 0) :
